@@ -36,6 +36,11 @@ func w1GenProp(r *rand.Rand, c *simrt.Case, nclients, maxOps int, prop, tier str
 	cfg := c.Config
 	switch prop {
 	case "C02":
+		if r.IntN(5) == 0 {
+			// several brokers handing a partition over through leases: offsets stay unique across owners
+			w1GenLease(r, c, nclients, maxOps)
+			return
+		}
 		clean := r.IntN(2) == 0
 		if clean {
 			cfg["clean"] = 1
@@ -242,6 +247,15 @@ func (w *w1) judgeOffsets() {
 				p := list[i-1]
 				if a.r.base < p.r.base+p.n {
 					clause := "overlap"
+					if w.etcdMode() {
+						w.sim.Probe("c02.lease-handover-overlap")
+						lost := func(r *produceRec) bool { return r.appendSeen && (!r.heldAtAppend || !r.heldAtAck) }
+						if lost(p.r) || lost(a.r) {
+							// one of the two requests lost its lease between its ownership check and its
+							// acknowledgement: the unfenced-write gap recorded as KF-C19-check-then-act
+							clause = "overlap-lease-lost-in-flight"
+						}
+					}
 					if p.r.how == "concat" {
 						clause = "overlap-after-concatenated-batches"
 					}
